@@ -415,3 +415,21 @@ def _rng(state):
 
 contract('C12.runtime', [AN + 'spot_diagram.py:SpotDiagram.__init__', AN + 'ray_fan.py:RayFan.__init__',
                          AN + 'field_curvature.py:FieldCurvature.__init__'], ['C12'], custom=_bounded)(lambda c: None)
+
+
+def _measure_c12(L):
+    from optiland import analysis
+    pw = L.primary_wavelength
+    sd = analysis.SpotDiagram(L, num_rings=3, distribution='hexapolar')
+    rf = analysis.RayFan(L, num_points=5)
+    out = {'spot_rms': np.array(sd.rms_spot_radius(), dtype=float), 'spot_centroid': np.array(sd.centroid(), dtype=float),
+           'spot_geo': np.array(sd.geometric_spot_radius(), dtype=float)}
+    f0 = L.fields.get_field_coords()[-1]
+    out['ray_fan_y'] = np.array(rf.data[str(f0)][str(pw)]['y'], dtype=float)
+    fc = analysis.FieldCurvature(L, wavelengths=[pw], num_points=3)
+    out['field_curvature'] = np.array(fc.data, dtype=float)
+    return out
+
+
+contract('C12.runtime.requery', [AN + 'spot_diagram.py:SpotDiagram.__init__', AN + 'ray_fan.py:RayFan.__init__', AN + 'field_curvature.py:FieldCurvature.__init__'],
+         ['C12', 'C13'], custom=rt.requery_custom(_measure_c12, 'C12.runtime.analyses_of_an_edited_lens_equal_those_of_a_lens_built_with_the_edits'))(lambda c: None)
